@@ -586,7 +586,10 @@ def serve_exception(fx, exc, sf):
         return "sender-error", e, None
     if len(ch.sent) != 1:
         return "sender-error", RuntimeError("%d frames sent" % len(ch.sent)), None
-    tbtext = "".join(traceback.format_exception(type(exc), exc, conn._last_traceback))
+    try:
+        tbtext = "".join(traceback.format_exception(type(exc), exc, conn._last_traceback))
+    except Exception as e:      # the harness's own formatting of an exception it generated (too deep / raising repr) must not escape
+        tbtext = "<traceback text not computable by the harness: %s>" % type(e).__name__
     return "sent", ch.sent.pop(), tbtext
 
 
